@@ -88,7 +88,7 @@ def register(reg):
                   'sg_len[0] >= 16 and rec[0] == 0 and lr_first[0] == 0 and lr_last[0] >= 0',
                   'sg_pos[len(sg_pos) - 1] + sg_len[len(sg_pos) - 1] == len(self.file.data)'],
         modifies=MOD_FILE + MOD_HDR + MOD_VR,
-        ensures=['len(out) == ' + K,
+        ensures=['vr_ri(self.file.data, self.visible_record)', 'len(out) == ' + K,
                  'forall(0, len(out), lambda k: out[k].lr_type == sg_type[lr_first[k]] and out[k].lr_is_eflr == bit(sg_attr[lr_first[k]], 7)'
                  ' and out[k].lr_is_encrypted == bit(sg_attr[lr_first[k]], 4)'
                  ' and out[k].position.vr_position == sg_vrp[lr_first[k]] and out[k].position.lrsh_position == sg_pos[lr_first[k]]'
